@@ -947,6 +947,13 @@ impl Model {
             }
         }
         // (vi) injected submission failure => nothing persists
+        if pre_w.fault_nodata.is_some() && matches!(op, Op::Exec { .. } | Op::Hook { .. }) && res.ok {
+            // a transfer whose response came back without data cannot be tracked: the operation must not commit
+            let n = res.events.iter().filter(|e| matches!(e, Ev::IbcSend { .. })).count() as u32;
+            if n > pre_w.fault_nodata.unwrap() {
+                v.push(Viol { prop: "C07", what: format!("{kind} committed although the transfer's response carried no sequence number") });
+            }
+        }
         if pre_w.fault_submit.is_some() && matches!(op, Op::Exec { .. } | Op::Hook { .. }) {
             let hit = res.err.contains("submit-fault") || !res.ok;
             if res.ok && sc.w.packets.len() < pre_w.packets.len() + 1 {
